@@ -3,7 +3,7 @@ C04 — helper lemmas: dictionaries, the cache invariant, its preservation by ev
 agreement of the cached lookup with the cache-free one.
 -/
 import LimnoriaModel.C04.Model
-import LimnoriaModel.C03.Lemmas
+import LimnoriaModel.C03.Props
 namespace C04
 open Py C03
 
@@ -1466,5 +1466,130 @@ theorem revOK_run {st : St} (h : RevOK st.hc) (ops : List Op) : RevOK (run st op
     unfold run
     simp only [List.foldl_cons]
     exact ih (revOK_step h o)
+
+/-! ### `checkCapability` through the caches -/
+
+/-- `getUserId` only ever changes user records (and the caches) -/
+theorem getUserId_db_frame (st : St) (s : Str) :
+    (getUserId st s).1.db.channels = st.db.channels ∧ (getUserId st s).1.db.defaults = st.db.defaults ∧
+    (getUserId st s).1.db.registered = st.db.registered ∧ (getUserId st s).1.db.defaultFlag = st.db.defaultFlag := by
+  have hslow : ∀ st : St, (slowPath st s).1.db.channels = st.db.channels ∧
+      (slowPath st s).1.db.defaults = st.db.defaults ∧ (slowPath st s).1.db.registered = st.db.registered ∧
+      (slowPath st s).1.db.defaultFlag = st.db.defaultFlag := by
+    intro st; unfold slowPath; split <;> simp
+  unfold getUserId
+  split
+  · unfold getUserIdHost
+    split
+    · split
+      · split
+        · simp
+        · have := hslow (invalidateHost st s)
+          rw [(invalidateHost_db st s).1] at this
+          exact this
+      · exact hslow st
+    · exact hslow st
+  · unfold getUserIdName
+    simp only
+    split
+    · simp
+    · split <;> simp
+
+/-- a successful `getUserId` leaves the records alone -/
+theorem getUserId_ok_db {st : St} {s : Str} {id : Nat} (h : (getUserId st s).2 = .ok id) :
+    (getUserId st s).1.db = st.db := by
+  have hslow : ∀ st : St, (slowPath st s).2 = .ok id → (slowPath st s).1.db = st.db := by
+    intro st h
+    unfold slowPath at h ⊢
+    split
+    · rfl
+    · rfl
+    · rename_i h1 h2
+      simp only [h1, h2] at h
+      split at h <;> cases h
+  unfold getUserId at h ⊢
+  split
+  · rename_i hs
+    simp only [hs, if_true] at h
+    unfold getUserIdHost at h ⊢
+    split
+    · rename_i id' hl
+      simp only [hl] at h
+      split
+      · rename_i u hu
+        simp only [hu] at h
+        split
+        · rfl
+        · rename_i hc
+          simp only [hc, if_false] at h
+          rw [hslow _ h, (invalidateHost_db st s).1]
+      · rename_i hu
+        simp only [hu] at h
+        exact hslow st h
+    · rename_i hl
+      simp only [hl] at h
+      exact hslow st h
+  · unfold getUserIdName
+    simp only
+    split
+    · rfl
+    · split <;> rfl
+
+theorem find_by_id {l : List User} (hnd : (l.map (fun u => u.id)).Nodup) {u : User} (hu : u ∈ l) :
+    l.find? (fun v => v.id == u.id) = some u := by
+  induction l with
+  | nil => cases hu
+  | cons x xs ih =>
+    simp only [List.map_cons, List.nodup_cons, List.mem_map, not_exists, not_and] at hnd
+    simp only [List.find?_cons]
+    rcases List.mem_cons.1 hu with e | e
+    · subst e; simp
+    · have : (x.id == u.id) = false := by
+        simp only [beq_eq_false_iff_ne, ne_eq]
+        exact fun h => hnd.1 u e h.symm
+      rw [this]; exact ih hnd.2 e
+
+/-- **The capability decision does not depend on the lookup caches**: in a state satisfying the
+invariant, `checkCapability` run through `UsersDictionary.getUser` — cache hits, re-validation,
+duplicate removal and all — returns what the cache-free `C03.Db.checkCapability` returns on the
+same records at the same time. -/
+theorem checkCapabilityS_eq {st : St} (hi : Inv st) (h cap : Str) (fl : Flags) :
+    (checkCapabilityS st h cap fl).2 = st.db.checkCapability st.now h cap fl := by
+  have hag := getUserId_agrees hi.recs hi.cache h
+  have hfr := getUserId_frame st h
+  have hdf := getUserId_db_frame st h
+  unfold checkCapabilityS recogniseS getUser Db.checkCapability Db.recognise
+  cases hres : (getUserId st h).2 with
+  | ok id =>
+    have hdb := getUserId_ok_db hres
+    rw [hres] at hag
+    cases hl : st.db.lookup st.now h with
+    | found u0 =>
+      rw [hl] at hag
+      have hmem : u0 ∈ st.db.users := C03.lookup_found_mem hl
+      have hfind : st.db.getUserById id = some u0 := by
+        unfold Db.getUserById
+        rw [← hag]; exact find_by_id hi.recs.nodup hmem
+      have e1 : (getUserId st h) = ((getUserId st h).1, (getUserId st h).2) := rfl
+      rw [e1, hres]
+      simp only [hdb, hfind, hfr.1]
+      by_cases hc : (u0.secure && !u0.checkHostmask st.db.timeout st.now h false) = true
+      · simp only [hc, if_true]
+      · simp only [hc, Bool.false_eq_true, if_false]
+    | missing => rw [hl] at hag; cases hag
+    | duplicate => rw [hl] at hag; cases hag
+  | error e =>
+    rw [hres] at hag
+    have e1 : (getUserId st h) = ((getUserId st h).1, (getUserId st h).2) := rfl
+    rw [e1, hres]
+    simp only
+    have hunk : (getUserId st h).1.db.checkUnknown cap fl.ignoreDefaultAllow =
+        st.db.checkUnknown cap fl.ignoreDefaultAllow := by
+      unfold Db.checkUnknown Db.globalsUnknown Db.getChannel
+      simp only [hdf.1, hdf.2.1, hdf.2.2.2]
+    cases hl : st.db.lookup st.now h with
+    | found u0 => rw [hl] at hag; cases e <;> cases hag
+    | missing => simp only [hunk]
+    | duplicate => simp only [hunk]
 
 end C04
